@@ -352,7 +352,7 @@ def canaries(tier="quick"):
 MIN_OBLIGATIONS = {"quick": 50, "thorough": 50}
 TRUSTED = ["A-GRAPH, A-REAL, own ring engine (see C01)", "z3 4.x / cvc5 (QF_NRA) for the |r|^2 <= 1 and divisor-nonzero obligations and for the steps of the proof script (cyverif.absproof)"]
 ASSUMPTIONS = [
-    "lemma L-SO3 (not machine-checked): every rotation matrix is R(q) for a unit quaternion q of either sign (sort of the from_Matrix inputs)",
+    "lemma L-SO3 (machine-checked in Lean 4 / mathlib, lemmas/SO3Surj.lean + lemmas/SO3Cover.lean): every rotation matrix is R(q) for a unit quaternion q of either sign (sort of the from_Matrix inputs)",
     "exactness claim: requires Euler pitch outside the +-1e-3 rad gimbal band; inside the band the tolerance clause is the separate obligation |M(result) - M(input)| <= 2 cos(pitch) entrywise "
     "(C07.Euler.from_Matrix.band-north/south, proved for canonical input triples with pitch in (0, pi/2] / [-pi/2, 0) by a machine-checked proof script); cos(pitch) < 1e-3 in the band is lemma L-TRIG-MONO (machine-checked in Lean 4 / mathlib, lemmas/TrigMono.lean)",
     "requires: quaternion -> MRP away from q0 = -1 (divisor 1 + q0), see the unchecked definedness assumptions in coverage",
